@@ -84,7 +84,12 @@ _SRC_CACHE = {}
 
 def load_src(rel):
     if rel not in _SRC_CACHE:
-        p = os.path.join(REPO, rel)
+        m = re.match(r'crate:([\w-]+)/(.*)$', rel)
+        if m:
+            root, ver = registry_src(m.group(1))
+            p = os.path.join(root, m.group(2))
+        else:
+            p = os.path.join(REPO, rel)
         if not os.path.exists(p):
             raise Undecided('lost anchor: file %s' % rel)
         src = open(p, encoding='utf-8').read()
@@ -557,6 +562,7 @@ def registry_src(crate):
 
 
 _OPAQUE_DECLARED = set()
+_MIRROR_OPTS = {}
 
 
 def _opaque_name(ty):
@@ -578,6 +584,9 @@ def _mirror_type(ty, known):
     if name not in _OPAQUE_DECLARED:
         _OPAQUE_DECLARED.add(name)
         decls.append('#[verifier::external_body] pub struct %s; // opaque payload: %s' % (name, ty))
+        if _MIRROR_OPTS.get('defaults'):
+            decls.append('pub uninterp spec fn default_%s() -> %s;' % (name, name))
+            decls.append('impl Default for %s { #[verifier::external_body] fn default() -> (r: Self) ensures r == default_%s() { unimplemented!() } }' % (name, name))
     return name, decls
 
 
@@ -589,6 +598,7 @@ def field_mirror(args, log):
        the template itself defines or mirrors)."""
     rest, opts = parse_opts(args)
     crate, relfile, struct = rest.split()[:3]
+    _MIRROR_OPTS['defaults'] = opts.get('defaults') == 'yes'
     root, ver = registry_src(crate)
     src = open(os.path.join(root, relfile), encoding='utf-8').read()
     kind = rs.code_mask(src)
@@ -608,6 +618,7 @@ def field_mirror(args, log):
             i += 1
     body = ''.join(out)[1:-1]
     known = {k: k for k in opts.get('known', '').split(',') if k}
+    concrete = set(x for x in opts.get('concrete', '').split(',') if x)
     # split on top-level commas
     fields = []
     depth = 0
@@ -632,7 +643,10 @@ def field_mirror(args, log):
         m = re.match(r'\s*(pub(\s*\([^)]*\))?\s+)?(\w+)\s*:\s*(.*)$', f.strip(), re.S)
         if not m:
             continue
-        ty, d = _mirror_type(m.group(4), known)
+        if m.group(3) in concrete:
+            ty, d = rs.norm_ws(m.group(4)), []
+        else:
+            ty, d = _mirror_type(m.group(4), known)
         decls.extend(d)
         names.append(m.group(3))
         lines.append('    pub %s: %s,' % (m.group(3), ty))
